@@ -152,6 +152,9 @@ def expand(spec):
             # beyond the rung level it was paused at ("training script must not skip rung levels"):
             # outside C02; such workers report one level per poll
             p["plan"]["burst"] = 1
+        if rng.random() < 0.3:
+            # training scripts that end by themselves before the last level (also in the run after a resume)
+            p["plan"]["short"] = {f"{rng.randint(0, 12)}:{rng.choice([0, 0, 1])}": rng.randint(1, max_t) for _ in range(rng.randint(1, 4))}
     else:
         p = simrun.sim_params(rng, kind=real_kind)
         p["sjwd"] = True
